@@ -63,6 +63,23 @@ class Obj:
         return f"<{self.cls} {self.attrs}>"
 
 
+class GenResult(list):
+    """what calling a generator function gives: the values it yields (it is run eagerly), consumable with next()"""
+
+    def __init__(self, items, raised=None):
+        super().__init__(items)
+        self.pos = 0
+        self.raised = raised  # a Raised that ended the generator early: re-raised when the consumer gets there
+
+    def take(self):
+        if self.pos < len(self):
+            self.pos += 1
+            return self[self.pos - 1]
+        if self.raised is not None:
+            raise self.raised
+        raise Raised("StopIteration")
+
+
 class Closure:
     def __init__(self, node: ast.Lambda, env: dict, interp):
         self.node, self.env, self.interp = node, env, interp
@@ -83,6 +100,7 @@ class Interp:
         self.classes = dict(classes or {})  # name -> callable() -> Obj
         self.ignore_calls = ignore_calls
         self.method_resolver = method_resolver  # (class name, method name) -> (FunctionDef, is_static) | None
+        self.gen_partial = False  # True: a generator that raises gives what it yielded so far, then raises on next()
         self.steps = 0
 
     # -- expressions ------------------------------------------------------------------------------
@@ -252,6 +270,10 @@ class Interp:
             return "<str>"
         if isinstance(e, ast.Call):
             return self.call(e, env)
+        if isinstance(e, ast.NamedExpr):
+            v = self.ev(e.value, env)
+            self.bind(e.target, v, env)
+            return v
         if isinstance(e, ast.Yield):
             # a generator is run eagerly: what it yields is collected (call_function returns the list)
             env.setdefault("@yields", []).append(self.ev(e.value, env) if e.value is not None else None)
@@ -283,6 +305,11 @@ class Interp:
             simple = {"len": len, "bool": bool, "int": int, "list": list, "tuple": tuple, "dict": dict, "set": set, "str": lambda x="": getattr(x, "_minipy_str", "<str>") if not isinstance(x, str) else x, "enumerate": lambda x, s=0: list(enumerate(x, s)), "zip": lambda *a: list(zip(*a)), "range": range, "any": any, "all": all, "min": min, "max": max, "repr": lambda x: "<repr>", "UID": lambda x: x}
             if n in simple:
                 return simple[n](*args, **kw)
+            if n == "next":
+                it0 = args[0]
+                if isinstance(it0, GenResult):
+                    return it0.take()
+                raise Unsupported("next() on something that is not a generator result")
             if n == "sorted":
                 key = kw.get("key")
                 rev = kw.get("reverse", False)
@@ -324,6 +351,11 @@ class Interp:
                         return self.call_function(fn, bound)
             if base is None:
                 raise Raised("AttributeError", e)
+            allowed = getattr(base, "_minipy_methods", None)
+            if allowed is not None and m in allowed:
+                return getattr(base, m)(*args, **kw)
+            if isinstance(base, (bytes, bytearray)) and m in ("decode", "startswith", "endswith", "find", "join", "hex"):
+                return getattr(base, m)(*args, **kw)
             raise Unsupported(f"method {m} of a {type(base).__name__}")
         if isinstance(e.func, (ast.Call, ast.Subscript)):
             f_ = self.ev(e.func, env)
@@ -427,6 +459,21 @@ class Interp:
                     self.run(s.orelse, env)
             finally:
                 self.run(s.finalbody, env)
+        elif isinstance(s, ast.With):
+            cms = []
+            for item in s.items:
+                cm = self.ev(item.context_expr, env)
+                if not getattr(cm, "_minipy_cm", False):
+                    raise Unsupported(f"with-statement over a {type(cm).__name__}")
+                v = cm.__enter__()
+                cms.append(cm)
+                if item.optional_vars is not None:
+                    self.bind(item.optional_vars, v, env)
+            try:
+                self.run(s.body, env)
+            finally:
+                for cm in reversed(cms):
+                    cm.__exit__(None, None, None)
         elif isinstance(s, ast.Return):
             raise _Return(self.ev(s.value, env) if s.value is not None else None)
         elif isinstance(s, ast.Raise):
@@ -474,11 +521,22 @@ class Interp:
         is_gen = any(isinstance(x, (ast.Yield, ast.YieldFrom)) for x in walk_no_nested(fn))
         if is_gen:
             env["@yields"] = []
+            try:
+                self.run(body, env)
+            except _Return:
+                pass
+            except Raised as r:
+                if r.kind == "StopIteration":
+                    r = Raised("RuntimeError", r.node)  # PEP 479
+                if self.gen_partial:
+                    return GenResult(env["@yields"], r)
+                raise r
+            return GenResult(env["@yields"])
         try:
             self.run(body, env)
         except _Return as r:
-            return env["@yields"] if is_gen else r.value
-        return env["@yields"] if is_gen else None
+            return r.value
+        return None
 
 
 def _load(t):
